@@ -132,7 +132,7 @@ class CacheDriver:
 
     def apply(self, name, args):
         if name == "Advance":
-            self.now += 1
+            self.now += args[0]
             self.loop.advance(T0 + self.now)
             return self.last
         if name == "Call":
@@ -189,16 +189,20 @@ def groups(tier):
     because the method forms multiply the branching by the number of receivers"""
     if tier == "quick":
         return [
-            ("fn", dict(NKeys=3, NRecv=1, Forms=FN, Limits=[1, 2, 3], Expirations=[0, 2], MaxT=3, MaxOps=5, Bug="none"),
-             dict(NKeys=3, NRecv=1, Forms=FN, Limits=[1, 2], Expirations=[0, 2], MaxT=3, MaxOps=3, Bug="none")),
-            ("method", dict(NKeys=2, NRecv=2, Forms=METH, Limits=[1, 2, 3], Expirations=[0, 2], MaxT=3, MaxOps=5, Bug="none"),
-             dict(NKeys=2, NRecv=2, Forms=METH, Limits=[1, 2], Expirations=[0, 2], MaxT=3, MaxOps=3, Bug="none")),
+            ("fn", dict(NKeys=3, NRecv=1, Forms=FN, Limits=[1, 2, 3], Expirations=[0, 2], MaxT=3, MaxOps=5, Outs=["val", "exc"], Steps=[1], Bug="none"),
+             dict(NKeys=3, NRecv=1, Forms=FN, Limits=[1, 2], Expirations=[0, 2], MaxT=3, MaxOps=3, Outs=["val", "exc"], Steps=[1], Bug="none")),
+            ("method", dict(NKeys=2, NRecv=2, Forms=METH, Limits=[1, 2, 3], Expirations=[0, 2], MaxT=3, MaxOps=5, Outs=["val", "exc"], Steps=[1], Bug="none"),
+             dict(NKeys=2, NRecv=2, Forms=METH, Limits=[1, 2], Expirations=[0, 2], MaxT=3, MaxOps=3, Outs=["val", "exc"], Steps=[1], Bug="none")),
+            # longer histories on a narrow configuration: expiry and LRU order interacting (re-stored keys, eviction
+            # after a refresh) need 6+ operations to show
+            ("deep", dict(NKeys=3, NRecv=1, Forms=["sync_fn"], Limits=[2], Expirations=[2], MaxT=6, MaxOps=7, Outs=["val"], Steps=[3], Bug="none"),
+             dict(NKeys=3, NRecv=1, Forms=["sync_fn", "async_fn"], Limits=[2], Expirations=[2], MaxT=6, MaxOps=6, Outs=["val"], Steps=[3], Bug="none")),
         ]
     return [
-        ("fn", dict(NKeys=3, NRecv=1, Forms=FN, Limits=[1, 2, 3], Expirations=[0, 2, 3], MaxT=4, MaxOps=6, Bug="none"),
-         dict(NKeys=4, NRecv=1, Forms=FN, Limits=[1, 2, 3], Expirations=[0, 2], MaxT=3, MaxOps=4, Bug="none")),
-        ("method", dict(NKeys=2, NRecv=2, Forms=METH, Limits=[1, 2, 3], Expirations=[0, 2, 3], MaxT=4, MaxOps=6, Bug="none"),
-         dict(NKeys=2, NRecv=2, Forms=METH, Limits=[1, 2, 3], Expirations=[0, 2], MaxT=3, MaxOps=4, Bug="none")),
+        ("fn", dict(NKeys=3, NRecv=1, Forms=FN, Limits=[1, 2, 3], Expirations=[0, 2, 3], MaxT=4, MaxOps=6, Outs=["val", "exc"], Steps=[1], Bug="none"),
+         dict(NKeys=4, NRecv=1, Forms=FN, Limits=[1, 2, 3], Expirations=[0, 2], MaxT=3, MaxOps=4, Outs=["val", "exc"], Steps=[1], Bug="none")),
+        ("method", dict(NKeys=2, NRecv=2, Forms=METH, Limits=[1, 2, 3], Expirations=[0, 2, 3], MaxT=4, MaxOps=6, Outs=["val", "exc"], Steps=[1], Bug="none"),
+         dict(NKeys=2, NRecv=2, Forms=METH, Limits=[1, 2, 3], Expirations=[0, 2], MaxT=3, MaxOps=4, Outs=["val", "exc"], Steps=[1], Bug="none")),
     ]
 
 
@@ -209,7 +213,8 @@ def run(rep, work, tier, seed):
         leg_m(rep, work, SPEC, f"mc_{name}_{tier}", cfg_text(mc, spec="Spec", invariants=INVS, properties=["Complete"]),
               expect_actions=["Call", "Advance", "Drain"], timeout=3000)
     if tier == "thorough":
-        small = dict(NKeys=3, NRecv=1, Forms=["sync_fn"], Limits=[1, 2], Expirations=[0, 2], MaxT=4, MaxOps=5)
+        small = dict(NKeys=3, NRecv=1, Forms=["sync_fn"], Limits=[1, 2], Expirations=[0, 2], MaxT=4, MaxOps=5,
+                     Outs=["val", "exc"], Steps=[1])
         for bug, inv in (("fifo", ["Complete"]), ("expiry_le", ["Complete"]), ("ge_limit", ["Complete"]),
                          ("evict_newest", ["Complete"])):
             leg_mutant(rep, work, SPEC, f"mutant_{bug}",
